@@ -261,12 +261,39 @@ class Gen:
         sep = self.pick([" ", "\n", "\n\n"])
         return sep.join(self.statement() for _ in range(n)) + self.pick(["", "\n"])
 
+    def collision_program(self):
+        """user-chosen names that collide with the names index.rs generates for anonymous defs / defms (`anonymous_<n>`):
+        the named one is declared BEFORE the n-th anonymous one and used after it; for def and defm, in and outside defsets"""
+        k = self.r.randrange(2)
+        nm = "anonymous_%d" % k
+        pre = "" if k == 0 else self.pick(["def { int w = 0; }\n", "class Z0; def : Z0;\n", "multiclass M0 { def W; } defm : M0;\n"])
+        c = self.pick(CLASSES)
+        f, g = self.r.sample(FIELDS, 2)
+        pats = [
+            "def %s { int %s = 1; }\ndef { int %s = 2; }\ndef d { int z = %s.%s; }" % (nm, f, g, nm, f),
+            "class %s { int %s = 0; }\ndef %s : %s;\ndef : %s;\ndef e { %s q = %s; int r = %s.%s; }" % (c, f, nm, c, c, c, nm, nm, f),
+            "class %s;\ndefset list<%s> s = { def %s : %s; def : %s; }\ndef e { %s q = %s; }" % (c, c, nm, c, c, c, nm),
+            "class %s;\ndef %s : %s;\ndefset list<%s> s = { def : %s; def : %s; }\ndef e { %s q = %s; list<%s> l = s; }" % (c, nm, c, c, c, c, c, nm, c),
+            "multiclass M { def X; }\ndefm %s : M;\ndefm : M;\ndef %s { int %s = 1; }\ndef { int %s = 2; }\ndef d { int z = %s.%s; }" % (nm, "anonymous_%d" % (k + 1), f, g, "anonymous_%d" % (k + 1), f),
+            "class %s;\ndefset list<%s> s = { defm %s : M; def %s : %s; }\nmulticlass M { def X : %s; }\ndef : %s;\ndef e { %s q = %s; }" % (c, c, nm, nm, c, c, c, c, nm),
+        ]
+        return pre + self.pick(pats) + "\n" + self.program(self.r.randrange(0, 3))
+
     # ----------------------------------------------------------------- workspaces
     def workspace(self):
         """multi-file workspace: returns (files, root).  Shapes: single, chain, star, diamond (with redefinition
         of a class between the two visits of the shared file), missing include, include inside a block."""
-        shape = self.r.randrange(14)
+        shape = self.r.randrange(16)
         d = "/w/"
+        if shape == 14:
+            return [[d + "main.td", self.collision_program()]], d + "main.td"
+        if shape == 15:
+            # the colliding names across an include: the user def in the included file, the anonymous one in the root (and vice versa)
+            if self.chance(0.5):
+                return [[d + "main.td", 'include "a.td"\ndef { int y = 2; }\ndef d { int z = anonymous_0.x; }\n' + self.program(1)],
+                        [d + "a.td", "def anonymous_0 { int x = 1; }\n" + self.program(1)]], d + "main.td"
+            return [[d + "main.td", 'def anonymous_0 { int x = 1; }\ninclude "a.td"\ndef d { int z = anonymous_0.x; }\n' + self.program(1)],
+                    [d + "a.td", "def { int y = 2; }\n"]], d + "main.td"
         if shape == 13:
             # an include inside a block of a multiclass body; the included (longer) file declares a multiclass with template arguments
             pad = "// " + "padding " * self.r.randrange(3, 12) + "\n"
@@ -443,3 +470,33 @@ def inject_trivia(text, rng, n=6):
         i = rng.randrange(len(toks) + 1)
         toks.insert(i, TRIVIA[rng.randrange(len(TRIVIA))])
     return "".join(toks)
+
+
+# ---- programs with a by-construction expectation: go-to-definition at the marked use must land on the marked declaration
+def expect_cases(rng, n):
+    """returns [(files, root, [[path, use_offset, [path, lo, hi]], ...])]: layered class hierarchies in which a shared ancestor
+    is met a second time BEFORE the parent that declares the field (`continue`, not `break`, in Record::find_field_in), with
+    a SUCCESSFUL lookup expected; @D@ marks the declaring identifier, @U@ the use"""
+    out = []
+    for _ in range(n):
+        f, g = rng.sample(FIELDS, 2)
+        base, mixin, left, right, dia = rng.sample(["Base", "Mixin", "Left", "Right", "Dia", "P", "Q", "R0", "S", "T0"], 5)
+        hier = rng.choice([
+            "class %s { int %s; }\nclass %s { int @D@%s = 7; }\nclass %s : %s;\nclass %s : %s, %s;\nclass %s : %s, %s" % (base, g, mixin, f, left, base, right, base, mixin, dia, left, right),
+            "class %s { int %s; }\nclass %s : %s;\nclass %s { int @D@%s = 7; }\nclass %s : %s, %s, %s" % (base, g, left, base, right, f, dia, left, base, right),
+            "class %s { int %s; }\nclass %s { int @D@%s = 7; }\nclass %s : %s;\nclass %s : %s;\nclass %s : %s, %s, %s" % (base, g, mixin, f, left, base, right, left, dia, left, right, mixin),
+        ])
+        use = rng.choice([
+            " { int q = @U@%s; }\n" % f,
+            ";\ndef d0 : %s { int q = @U@%s; }\n" % (dia, f),
+            ";\ndef d0 : %s;\ndef e0 { int q = d0.@U@%s; }\n" % (dia, f),
+            ";\nclass Heir : %s { int q = !add(@U@%s, 1); }\n" % (dia, f),
+        ])
+        text = hier + use
+        dpos = text.index("@D@")
+        text = text.replace("@D@", "", 1)
+        upos = text.index("@U@")
+        text = text.replace("@U@", "", 1)
+        p = "/w/main.td"
+        out.append(([[p, text]], p, [[p, upos, [p, dpos, dpos + len(f)]]]))
+    return out
